@@ -1,13 +1,13 @@
 package main
 
 import (
-	"os"
 	"archive/tar"
 	"bytes"
 	"context"
 	"fmt"
 	"io"
 	gofs "io/fs"
+	"os"
 	"strings"
 	"time"
 
@@ -64,9 +64,11 @@ func (p primOnly) Open(name string) (hackpadfs.File, error) { return p.base.Open
 func (p primOnly) OpenFile(name string, flag int, perm hackpadfs.FileMode) (hackpadfs.File, error) {
 	return hackpadfs.OpenFile(p.base, name, flag, perm)
 }
-func (p primOnly) Mkdir(name string, perm hackpadfs.FileMode) error { return hackpadfs.Mkdir(p.base, name, perm) }
-func (p primOnly) Remove(name string) error                         { return hackpadfs.Remove(p.base, name) }
-func (p primOnly) Stat(name string) (hackpadfs.FileInfo, error)     { return hackpadfs.Stat(p.base, name) }
+func (p primOnly) Mkdir(name string, perm hackpadfs.FileMode) error {
+	return hackpadfs.Mkdir(p.base, name, perm)
+}
+func (p primOnly) Remove(name string) error                     { return hackpadfs.Remove(p.base, name) }
+func (p primOnly) Stat(name string) (hackpadfs.FileInfo, error) { return hackpadfs.Stat(p.base, name) }
 
 var primOps = []string{"mkdir", "mkdirall", "openclose", "open-ro", "writefile", "remove", "removeall", "stat", "readdir", "readfile", "sub"}
 
@@ -198,7 +200,7 @@ func c04Layers() []layer {
 			}
 			// (a failed reader does not wait for the small-file writers it started: let the first entry land)
 			for i := 0; i < 2000; i++ {
-				if b, err := hackpadfs.ReadFile(dest, "f"); err == nil && len(b) == 3 {
+				if b, err := hackpadfs.ReadFile(dest, "f"); err == nil && bytes.Equal(b, []byte{1, 2, 3}) { // (created at full size, then filled)
 					break
 				}
 				time.Sleep(time.Millisecond)
@@ -358,6 +360,52 @@ func runC04(r *Rng, n int, replay string) {
 				done()
 				emit(c)
 			}
+		}
+	}
+	// "backslash and colon inside an element are ordinary name bytes, never separators": a file created (or unpacked)
+	// under such a name is found under exactly that name, as ONE element of the root, and its look-alike prefix is absent
+	for _, sep := range []string{"b\\c", "a:b", "x\\y:1.txt", "d\\e\\f", "c:\\w"} {
+		for _, layer := range []string{"mem", "os", "tar"} {
+			c := &Case{ID: id, Kind: "separator-bytes", Trivial: true}
+			id++
+			c.Cells = []string{"separator-bytes/" + layer}
+			var fsys hackpadfs.FS
+			done := func() {}
+			switch layer {
+			case "mem":
+				fsys = newMem()
+				_ = hackpadfs.WriteFullFile(fsys, sep, []byte{7}, 0o644)
+			case "os":
+				fsys, done = newOSWorld()
+				_ = hackpadfs.WriteFullFile(fsys, sep, []byte{7}, 0o644)
+			default:
+				t, err := hptar.NewReaderFS(context.Background(), bytes.NewReader(tarOf(map[string][]byte{sep: {7}}, nil)), hptar.ReaderFSOptions{})
+				if err != nil {
+					panic(err)
+				}
+				<-t.Done()
+				fsys = t
+			}
+			_, serr := hackpadfs.Stat(fsys, sep)
+			var listed []string
+			if ents, err := hackpadfs.ReadDir(fsys, "."); err == nil {
+				for _, e := range ents {
+					listed = append(listed, e.Name())
+				}
+			}
+			first := strings.FieldsFunc(sep, func(r rune) bool { return r == '\\' || r == ':' })[0]
+			_, perr := hackpadfs.Stat(fsys, first)
+			c.Text = []string{fmt.Sprintf("[%s] a file named %q: Stat -> %v; the root lists %q; Stat(%q) -> %v", layer, sep, serr, listed, first, perr)}
+			switch {
+			case serr != nil:
+				c.fail(c.Text[0]+": the file is not found under its own name", "separator-bytes:"+layer+":missing")
+			case len(listed) != 1 || listed[0] != sep:
+				c.fail(c.Text[0]+": the root does not list exactly that name", "separator-bytes:"+layer+":listing")
+			case perr == nil:
+				c.fail(c.Text[0]+": a part of the name exists as an entry of its own", "separator-bytes:"+layer+":split")
+			}
+			done()
+			emit(c)
 		}
 	}
 	// ValidPath itself: model vs io/fs on every name used
